@@ -532,7 +532,7 @@ def correspond(ctx):
       disagreements=r['disagreements'] + p['disagreements'],
       spec_failures=shrink_all(r['models'], r['spec_failures']) + p['spec_failures'],
       trusted_base=['correspondence harness corr_C08.py (sampled inputs, float64, 1e-9 relative+absolute)',
-                    'scan.link_types modelled as the per-link slicing it implements (Layer B stage 1), tied by this correspondence',
+                    'scan.link_types: grouped code transcribed and proved equal to the per-link slicing (Layer B stage 2, Props/C01.scanLinkTypes_coded_eq_slices); transcription tied exhaustively in the C01 check',
                     'Kin.forward tied to kinematics.forward by C01 (re-checked here through the rt leg)',
                     'near-branch distance computed by the Lean driver from the model intermediates (threshold 1e-6)'],
       assumptions=['IEEE round-off not modelled; theorems over the reals',
